@@ -86,7 +86,10 @@ def main():
         with open(H.args.replay) as fh:
             rec = json.load(fh)
         lab = rec["label"]
-        if lab.startswith("P"):
+        if lab.startswith("M"):
+            import c14m
+            fn = c14m.confirm
+        elif lab.startswith("P"):
             fn = confirm_parse
         elif lab.startswith("L"):
             import c15
